@@ -27,7 +27,7 @@ RULE = ('random precipitation configurations (system x composition x temperature
 REQUIRED_MONITORS = ['c01.conservation', 'c01.fconc']
 REACH = ['precipitation/KWNEuler.py:PrecipitateModel._calcMassBalance', 'precipitation/KWNBase.py:PrecipitateBase.postProcess',
          'precipitation/PopulationBalance.py:PopulationBalanceModel.WeightedMomentFromN']
-MIN_NONTRIVIAL = {'quick': 12, 'thorough': 80}
+MIN_NONTRIVIAL = {'quick': 8, 'thorough': 80}
 CASE_TIMEOUT = 900
 CASE_TIMEOUT_THOROUGH = 1800
 MAX_INCONCLUSIVE_FRACTION = 0.05
@@ -42,7 +42,7 @@ MANIFEST = {
     'technique': 'per-step invariant monitor with independent recomputation (step observer + monitoring iterator + thermodynamics spy seams)',
 }
 
-N_CASES = {'quick': 40, 'thorough': 320}
+N_CASES = {'quick': 32, 'thorough': 320}
 
 
 def plan(tier, seed):
@@ -55,6 +55,11 @@ def plan(tier, seed):
             sites = ['grain boundaries', 'grain edges', 'grain corners']
         cfg = precip_gen.gen_config(rng, system=forced, tier=tier, allow_noniso=(i % 5 == 0), grid_class='in_range', sites=sites)
         cases.append({'cfg': cfg, 'weight': precip_gen.cfg_weight(cfg)})
+    # age, then dissolve completely above the solvus (the 'phase has no precipitates' branches with non-zero history)
+    for j in range(2 if tier == 'quick' else 16):
+        rng = core.case_rng(seed, PROPERTY, 5000 + j)
+        cfg = precip_gen.gen_dissolution_config(rng, ['nialcr', 'almgsi', 'alzr'][j % 3], tier)
+        cases.append({'cfg': cfg, 'weight': 4e4 * cfg['max_steps'] / 100})
     return cases
 
 
